@@ -98,7 +98,7 @@ func Verif_C11_rows() {
 	name := verifStringN("name", 1)
 	age, score, extra := verifInt64("age"), verifInt64("score"), verifInt64("extra")
 	strict := verifChoose("strict", 2) == 1
-	switch verifCase(7) {
+	switch verifCase(8) {
 	case 0: // tagged struct: by column name, independent of column order, extra columns ignored
 		orders := [][]string{{"name", "age"}, {"age", "name"}, {"age", "extra", "name"}, {"extra", "name", "age"}}
 		cols := orders[verifChoose("order", 4)]
@@ -169,6 +169,8 @@ func Verif_C11_rows() {
 		err = unmarshalRows(&many, &verifRows{cols: cols, rows: [][]verifCell{row}}, strict)
 		verifAssert(err == nil && len(many) == 1 && many[0].Age == age && many[0].Score == score && many[0].Name == name && many[0].Rank == extra, "embedded first: the same for a slice of such structs")
 		verifReach("embedded-first")
+	case 7: // two DIFFERENT destination types that print the same (function-local types of the same name), one after the other
+		verifC11SameName(name, age, extra, strict)
 	case 4: // empty result / slices
 		var one verifTagged
 		err := unmarshalRow(&one, &verifRows{cols: []string{"name", "age"}}, strict)
@@ -188,4 +190,106 @@ func Verif_C11_rows() {
 		verifAssert(err == ErrNotMatchDestination, "strict rows: fewer columns than flattened destination fields is an error")
 		verifReach("rows")
 	}
+}
+
+// Case 7: in one run (one process, shared package state) a row is mapped into two
+// distinct struct types whose reflect.Type.String() coincide: function-local types
+// declared under the same name in two functions print "sqlx.verifLocal" both, have
+// the same Name() and PkgPath() and are nevertheless different types with different
+// tag layouts.  Each must be filled by ITS OWN db tags (by position when untagged),
+// whichever was mapped first.
+func verifSwappedA(rows *verifRows, strict bool) (first, last string, err error) {
+	type verifLocal struct {
+		First string `db:"first"`
+		Last  string `db:"last"`
+	}
+	var dst verifLocal
+	err = unmarshalRow(&dst, rows, strict)
+	return dst.First, dst.Last, err
+}
+
+func verifSwappedB(rows *verifRows, strict bool) (first, last string, err error) {
+	type verifLocal struct {
+		Last  string `db:"last"`
+		First string `db:"first"`
+	}
+	var dst []verifLocal
+	err = unmarshalRows(&dst, rows, strict)
+	if err != nil || len(dst) != 1 {
+		return "", "", verifErrBody
+	}
+	return dst[0].First, dst[0].Last, nil
+}
+
+func verifPairTagged(rows *verifRows, strict bool) (name string, age int64, err error) {
+	type verifLocal struct {
+		Name string `db:"name"`
+		Age  int64  `db:"age"`
+	}
+	var dst verifLocal
+	err = unmarshalRow(&dst, rows, strict)
+	return dst.Name, dst.Age, err
+}
+
+func verifPairUntagged(rows *verifRows, strict bool) (name string, age int64, err error) {
+	type verifLocal struct {
+		Name string
+		Age  int64
+	}
+	var dst verifLocal
+	err = unmarshalRow(&dst, rows, strict)
+	return dst.Name, dst.Age, err
+}
+
+func verifC11SameName(name string, age, extra int64, strict bool) {
+	bFirst := verifChoose("second-type-first", 2) == 1
+	if verifChoose("pair", 2) == 0 {
+		// same tags, opposite field order
+		last := verifStringN("last", 1)
+		orders := [][]string{{"first", "last"}, {"last", "first"}, {"last", "extra", "first"}}
+		cols := orders[verifChoose("order", 3)]
+		mk := func() *verifRows {
+			row := make([]verifCell, len(cols))
+			for i, c := range cols {
+				switch c {
+				case "first":
+					row[i] = verifCell{s: name}
+				case "last":
+					row[i] = verifCell{s: last}
+				default:
+					row[i] = verifCell{n: extra}
+				}
+			}
+			return &verifRows{cols: cols, rows: [][]verifCell{row}}
+		}
+		for k := 0; k < 2; k++ {
+			if (k == 0) != bFirst {
+				f, l, err := verifSwappedA(mk(), strict)
+				verifAssert(err == nil, "same-name types: type A maps without error")
+				verifAssert(f == name && l == last, "same-name types: type A (First,Last) is filled by column name through its own db tags")
+			} else {
+				f, l, err := verifSwappedB(mk(), strict)
+				verifAssert(err == nil, "same-name types: a slice of type B maps without error")
+				verifAssert(f == name && l == last, "same-name types: type B (Last,First) is filled by column name through its own db tags")
+			}
+		}
+		verifReach("same-name-swapped")
+		return
+	}
+	// a tagged and an untagged type of the same name; the untagged one is filled by
+	// position even when the column names happen to be the other type's tags
+	for k := 0; k < 2; k++ {
+		if (k == 0) != bFirst {
+			cols := [][]string{{"age", "name"}, {"name", "extra", "age"}}[verifChoose("order", 2)]
+			n, a, err := verifPairTagged(&verifRows{cols: cols, rows: [][]verifCell{verifRowOf(cols, name, age, 0, extra)}}, strict)
+			verifAssert(err == nil, "same-name types: the tagged type maps without error")
+			verifAssert(n == name && a == age, "same-name types: the tagged type is filled by column name")
+		} else {
+			cols := []string{"age", "name"}
+			n, a, err := verifPairUntagged(&verifRows{cols: cols, rows: [][]verifCell{{{s: name}, {n: age}}}}, strict)
+			verifAssert(err == nil, "same-name types: the untagged type maps without error")
+			verifAssert(n == name && a == age, "same-name types: the untagged type is filled by position")
+		}
+	}
+	verifReach("same-name-tagged-untagged")
 }
